@@ -241,13 +241,21 @@ def gen_c10(rng: random.Random, stalls: bool = False) -> dict:
     if stalls:
         for _ in range(rng.randint(1, 4)):
             events.append({"at": {"on": "state", "match": {"new": "CONNECTED"}, "delay": rng.random() * N * K}, "do": "fault", "kind": "stall", "d": K * pick(rng, [0.5, 2.0, 5.0, 9.0]), "phase": "pre"})
+    actors = [{"id": "a0", "at": {"t": 0.0}, "steps": [{"do": "connect", "login": rng.random() < 0.5}]}]
+    if rng.random() < 0.25:
+        # the application keeps writing fire-and-forget commands: outgoing traffic is no sign of life of the peer
+        x = K * pick(rng, [0.3, 0.5, 0.9, 1.7])
+        wsteps: list = []
+        for _ in range(min(200, int(end / x) + 1)):
+            wsteps += [{"do": "switch_command", "key": 1, "state": bool(rng.getrandbits(1))}, {"do": "sleep", "d": x}]
+        actors.append({"id": "app", "at": {"on": "state", "match": {"new": "CONNECTED"}, "delay": pick(rng, [0.0, 0.1 * K])}, "steps": wsteps})
     return {
         "family": "keepalive",
         "knobs": gen_knobs(rng),
         "client": client,
         "device": device,
         "net": {"cuts": {"mode": "coalesce"}, "c2d_latency": 0.001, "d2c_latency": [0.0]},
-        "actors": [{"id": "a0", "at": {"t": 0.0}, "steps": [{"do": "connect", "login": rng.random() < 0.5}]}],
+        "actors": actors,
         "events": events,
         "end": end,
         "max_time": 1e6,
